@@ -3,7 +3,7 @@ import importlib
 
 from vf.common import fail, patched
 from vf.engine import Cond
-from harness.scripttorch import ScriptTorch, LT, is_perm, distinct_in, ScriptExhausted
+from harness.scripttorch import ScriptTorch, LT, is_perm, distinct_in, ScriptExhausted, ShimMiss
 from kappadata.datasets.kd_dataset import KDDataset
 
 DS_MOD = importlib.import_module("kappadata.samplers.distributed_sampler")
@@ -92,6 +92,8 @@ def body_distributed(cfg, R, drop_last, seed, epoch, *perm):
             key_next = st.keys_seen[-1]
     except ScriptExhausted:
         return fail("a rank asked for a draw under a third generator key")
+    except ShimMiss:
+        raise  # the stub does not model an operation the code used: harness error, not a verdict
     except Exception as e:
         return fail("exception " + type(e).__name__)
     L = len(samplers[0])
@@ -130,6 +132,8 @@ def body_random(cfg, R, *perm):
             g = st.Generator().manual_seed(0)
             s = RS_MOD.RandomSampler(LenDS(n), num_repeats=R, generator=g)
             out = list(s)
+    except ShimMiss:
+        raise  # the stub does not model an operation the code used: harness error, not a verdict
     except Exception as e:
         return fail("exception " + type(e).__name__)
     if out != [perm[i // R] for i in range(n)]:
@@ -183,6 +187,8 @@ def body_cb_split(cfg, seed, epoch, *flat):
             key_next = st.keys_seen[-1]
     except ScriptExhausted:
         return fail("a rank asked for draws under another generator key / call sequence than the global draw")
+    except ShimMiss:
+        raise  # the stub does not model an operation the code used: harness error, not a verdict
     except Exception as e:
         return fail("exception " + type(e).__name__)
     L = len(samplers[0])
@@ -221,6 +227,8 @@ def body_weighted_split(cfg, size, seed, epoch, *draw):
             key_next = st.keys_seen[-1]
     except ScriptExhausted:
         return fail("a rank asked for a draw under another generator key")
+    except ShimMiss:
+        raise  # the stub does not model an operation the code used: harness error, not a verdict
     except Exception as e:
         return fail("exception " + type(e).__name__)
     L = len(samplers[0])
